@@ -10,7 +10,7 @@
 //  * C11: log invariants that do not use the monitor: own address on everything, nothing after a bus error or a
 //    disallowed reply (fail-stop), <= 3 receive requests and retries only after a 'failed' report from the own
 //    address, success only after a 'received' report from the own address answering the last state query.
-#![allow(dead_code, unused_imports, unused_variables, unused_results)]
+#![allow(dead_code, unused_imports, unused_variables, unused_results, unsafe_code, static_mut_refs)]
 use super::*;
 use std::error::Error;
 
@@ -69,24 +69,35 @@ const TYPES: [SignType; 11] = [
 ];
 
 fn state_idx(s: State) -> usize {
-    let mut i = 0;
-    while i < 13 {
-        if STATES[i] == s {
-            return i;
-        }
-        i += 1;
+    match s {
+        State::Unconfigured => 0,
+        State::ConfigInProgress => 1,
+        State::ConfigReceived => 2,
+        State::ConfigFailed => 3,
+        State::PixelsInProgress => 4,
+        State::PixelsReceived => 5,
+        State::PixelsFailed => 6,
+        State::PageLoaded => 7,
+        State::PageLoadInProgress => 8,
+        State::PageShown => 9,
+        State::PageShowInProgress => 10,
+        State::ShowingPages => 11,
+        State::ReadyToReset => 12,
+        #[allow(unreachable_patterns)]
+        _ => 13,
     }
-    13
 }
 fn op_idx(o: Operation) -> usize {
-    let mut i = 0;
-    while i < 6 {
-        if OPS[i] == o {
-            return i;
-        }
-        i += 1;
+    match o {
+        Operation::ReceiveConfig => 0,
+        Operation::ReceivePixels => 1,
+        Operation::ShowLoadedPage => 2,
+        Operation::LoadNextPage => 3,
+        Operation::StartReset => 4,
+        Operation::FinishReset => 5,
+        #[allow(unreachable_patterns)]
+        _ => 6,
     }
-    6
 }
 
 // ---- abstract outgoing message
@@ -124,8 +135,13 @@ enum Rep {
     UnknownFrame(u16, u8),
     Err,
 }
+static mut EXP_MODE: u8 = 0; // cost experiments only
 fn any_reply() -> Rep {
     let k: u8 = kani::any();
+    unsafe {
+        if EXP_MODE == 1 { kani::assume(k != 3 && k != 4); }
+        if EXP_MODE == 3 { kani::assume(k <= 4); }
+    }
     let a: u16 = kani::any();
     let si: usize = kani::any();
     let oi: usize = kani::any();
@@ -296,11 +312,11 @@ impl Bus {
                         if self.kind == Kind::Configure {
                             // the configuration sent is exactly the 16-byte block of the sign type
                             if let Message::SendData(_, d) = m {
-                                let mut i = 0;
-                                while i < 16 {
-                                    assert!(d.get()[i] == self.config[i]);
-                                    i += 1;
-                                }
+                                let sent: [u8; 16] = match <[u8; 16]>::try_from(&d.get()[..]) {
+                                    Ok(a) => a,
+                                    Err(_) => panic!("configuration chunk is not 16 bytes"),
+                                };
+                                assert!(u128::from_le_bytes(sent) == u128::from_le_bytes(self.config));
                             }
                         } else {
                             assert!(p == base.wrapping_add(off)); // the very bytes of the page, in order
@@ -492,11 +508,18 @@ impl SignBus for Bus {
         assert!(self.n_msgs <= LOG); // conversations are bounded by the protocol itself
         self.check_message(&message);
         let mut r = any_reply();
-        if self.phase == Phase::SwitchQuery && self.polls >= self.max_polls {
-            // bounded stand-in for the unbounded polling loop: at most max_polls in-progress reports
-            kani::assume(!matches!(r, Rep::Report(a, s) if a == self.own && (s == S_LOAD_PROG || s == S_SHOW_PROG)));
+        if self.kind == Kind::Switch && self.n_msgs >= self.max_polls {
+            // bounded stand-in for the unbounded loop of switch_page (it polls while the sign reports an in-progress
+            // state and re-requests while it reports the trigger state): after max_polls exchanges the sign must
+            // answer with something that ends the operation
+            kani::assume(!matches!(r, Rep::Report(a, s) if a == self.own && (s == S_LOAD_PROG || s == S_SHOW_PROG || s == self.sw_trigger)));
+            if self.phase == Phase::SwitchReq {
+                kani::assume(r != Rep::Ack(self.own, self.sw_op));
+            }
         }
-        self.log_invariants(&message, r);
+        if unsafe { EXP_MODE } != 2 {
+            self.log_invariants(&message, r);
+        }
         self.advance(r);
         core::mem::forget(message);
         reply_value(r)
@@ -529,14 +552,9 @@ fn any_type() -> SignType {
 }
 
 fn config_of(t: SignType) -> [u8; 16] {
-    let mut c = [0u8; 16];
     let b = t.to_bytes();
-    let mut i = 0;
-    while i < 16 && i < b.len() {
-        c[i] = b[i];
-        i += 1;
-    }
-    c
+    assert!(b.len() == 16);
+    [b[0], b[1], b[2], b[3], b[4], b[5], b[6], b[7], b[8], b[9], b[10], b[11], b[12], b[13], b[14], b[15]]
 }
 
 // ------------------------------------------------------------------------------------------ configure
@@ -570,14 +588,14 @@ fn run_configure(if_needed: bool) {
 }
 
 #[kani::proof]
-#[kani::unwind(18)]
+#[kani::unwind(4)]
 #[kani::stub(alloc::fmt::format, stub_format)]
 fn c10_configure_all_reply_scripts() {
     run_configure(false);
 }
 
 #[kani::proof]
-#[kani::unwind(18)]
+#[kani::unwind(4)]
 #[kani::stub(alloc::fmt::format, stub_format)]
 fn c10_configure_if_needed_all_reply_scripts() {
     run_configure(true);
@@ -628,23 +646,23 @@ fn run_switch(show: bool, max_polls: usize) {
     assert!(b.phase == Phase::Done);
     assert!(outcome_of(&r) == b.outcome);
     assert!(!b.sent_after_dead && !b.foreign_address_sent);
-    kani::cover!(r.is_ok() && b.polls == max_polls, "cov_ok_after_max_polls");
+    kani::cover!(r.is_ok() && b.polls >= 1 && b.n_msgs >= max_polls, "cov_ok_after_polling");
     kani::cover!(b.outcome == Outcome::Unexpected, "cov_unexpected");
     core::mem::forget(r);
 }
 
 #[kani::proof]
-#[kani::unwind(12)]
+#[kani::unwind(8)]
 #[kani::stub(alloc::fmt::format, stub_format)]
-fn c10_show_loaded_page_polls2() {
-    run_switch(true, 2);
+fn c10_show_loaded_page_bounded() {
+    run_switch(true, 5);
 }
 
 #[kani::proof]
-#[kani::unwind(12)]
+#[kani::unwind(8)]
 #[kani::stub(alloc::fmt::format, stub_format)]
-fn c10_load_next_page_polls2() {
-    run_switch(false, 2);
+fn c10_load_next_page_bounded() {
+    run_switch(false, 5);
 }
 
 // ------------------------------------------------------------------------------------------ send_pages
@@ -664,7 +682,10 @@ fn run_send_pages<const N: usize>(dims: [(u32, u32); N], bufs: &[[u8; 64]; N]) {
         assert!(len <= 64);
         match Page::from_bytes(w, h, &bufs[i][..len]) {
             Ok(p) => pages.push(p),
-            Err(_) => panic!("page construction"),
+            Err(e) => {
+            core::mem::forget(e); // never drop an error value in a harness: its drop glue drags in every dyn Error
+            panic!("page construction")
+        }
         }
         bus.items[i] = (bufs[i].as_ptr(), len);
         i += 1;
@@ -693,7 +714,7 @@ fn run_send_pages<const N: usize>(dims: [(u32, u32); N], bufs: &[[u8; 64]; N]) {
 }
 
 #[kani::proof]
-#[kani::unwind(8)]
+#[kani::unwind(5)]
 #[kani::stub(alloc::fmt::format, stub_format)]
 fn c09_send_pages_empty_list() {
     let bufs: [[u8; 64]; 0] = [];
@@ -701,7 +722,7 @@ fn c09_send_pages_empty_list() {
 }
 
 #[kani::proof]
-#[kani::unwind(8)]
+#[kani::unwind(5)]
 #[kani::stub(alloc::fmt::format, stub_format)]
 fn c09_send_pages_one_page_16() {
     let bufs: [[u8; 64]; 1] = [kani::any()];
@@ -709,7 +730,7 @@ fn c09_send_pages_one_page_16() {
 }
 
 #[kani::proof]
-#[kani::unwind(8)]
+#[kani::unwind(5)]
 #[kani::stub(alloc::fmt::format, stub_format)]
 fn c09_send_pages_one_page_48() {
     let bufs: [[u8; 64]; 1] = [kani::any()];
@@ -717,7 +738,7 @@ fn c09_send_pages_one_page_48() {
 }
 
 #[kani::proof]
-#[kani::unwind(8)]
+#[kani::unwind(5)]
 #[kani::stub(alloc::fmt::format, stub_format)]
 fn c09_send_pages_two_pages_16_32() {
     let bufs: [[u8; 64]; 2] = [kani::any(), kani::any()];
@@ -730,3 +751,10 @@ fn canary_must_fail() {
     let x: u8 = kani::any();
     assert!(x != 7);
 }
+
+#[kani::proof] #[kani::unwind(5)] #[kani::stub(alloc::fmt::format, stub_format)]
+fn exp_v1() { unsafe { EXP_MODE = 1; } let bufs: [[u8; 64]; 0] = []; run_send_pages::<0>([], &bufs); }
+#[kani::proof] #[kani::unwind(5)] #[kani::stub(alloc::fmt::format, stub_format)]
+fn exp_v2() { unsafe { EXP_MODE = 2; } let bufs: [[u8; 64]; 0] = []; run_send_pages::<0>([], &bufs); }
+#[kani::proof] #[kani::unwind(5)] #[kani::stub(alloc::fmt::format, stub_format)]
+fn exp_v3() { unsafe { EXP_MODE = 3; } let bufs: [[u8; 64]; 0] = []; run_send_pages::<0>([], &bufs); }
